@@ -1,9 +1,47 @@
+mod c05;
+mod common;
+mod prim;
 mod subject;
+
+use common::*;
+
+/// All sub-checks of a property for a tier.
+fn checks_for(property: &str, tier: Tier) -> Vec<Box<dyn Check>> {
+    let _ = tier;
+    match property {
+        | "C05" => c05::checks(),
+        | _ => vec![],
+    }
+}
+
+fn level_for(property: &str) -> &'static str {
+    match property {
+        | "C06" | "C08" | "C09" | "C15" | "C17" => "model_checking",
+        | _ => "exploration",
+    }
+}
+
+const ALL: [&str; 20] = [
+    "C01", "C02", "C03", "C04", "C05", "C06", "C07", "C08", "C09", "C10", "C11", "C12", "C13", "C14", "C15", "C16", "C17", "C18",
+    "C19", "C20",
+];
+
+fn find_check(name: &str, tier: Tier) -> Option<Box<dyn Check>> {
+    for p in ALL {
+        for c in checks_for(p, tier) {
+            if c.name() == name {
+                return Some(c);
+            }
+        }
+    }
+    None
+}
+
 fn main() {
     let args: Vec<String> = std::env::args().collect();
+    subject::install_quiet_panic_hook();
     match args.get(1).map(String::as_str) {
         | Some("probe") => {
-            subject::install_quiet_panic_hook();
             let s = subject::Subject::analyze(std::path::Path::new(&args[2]));
             println!("verdict: {:?}", s.verdict());
             if s.verdict().accepted() {
@@ -11,6 +49,45 @@ fn main() {
                 println!("run: {:?}", r);
             }
         }
-        | _ => eprintln!("usage"),
+        | Some("worker") => {
+            let tier = Tier::parse(&args[3]);
+            let mut check = find_check(&args[2], tier).expect("unknown check");
+            serve(check.as_mut());
+        }
+        | Some("check") => {
+            let property = args[2].clone();
+            let tier = Tier::parse(args.get(3).map(String::as_str).unwrap_or("quick"));
+            let only = std::env::var("VERIF_ONLY").ok();
+            let mut report = Report::new(&property, tier, level_for(&property));
+            let checks = checks_for(&property, tier);
+            if checks.is_empty() {
+                eprintln!("no checks for {property}");
+                std::process::exit(2);
+            }
+            for c in checks {
+                if let Some(o) = &only {
+                    if !c.name().contains(o.as_str()) {
+                        continue;
+                    }
+                }
+                report.run(c.as_ref());
+            }
+            std::process::exit(report.finish());
+        }
+        | Some("replay") => {
+            let text = std::fs::read_to_string(&args[2]).expect("replay file");
+            let v: serde_json::Value = serde_json::from_str(&text).expect("replay json");
+            let tier = Tier::parse(v["tier"].as_str().unwrap_or("quick"));
+            let mut check = find_check(v["check"].as_str().unwrap(), tier).expect("unknown check");
+            let i = v["index"].as_u64().unwrap() as usize;
+            println!("case {}: {}", i, check.describe(i));
+            let r = check.run(i);
+            println!("class: {}", r.class);
+            for viol in &r.violations {
+                println!("VIOLATION property={} fingerprint={}\n{}", check.property(), viol.fingerprint, viol.detail);
+            }
+            std::process::exit(if r.violations.is_empty() { 0 } else { 1 });
+        }
+        | _ => eprintln!("usage: zyv check <Cxx> [quick|thorough] | replay <file> | probe <file>"),
     }
 }
